@@ -206,6 +206,12 @@ def rec_bec2_read(rec, text, decs, ecc_privs, oracle, check=True, auth=None, **e
             g = Bec2File.read_file(io.StringIO(text), objs, check)
         pj = proj_bec2(g)
         ev.update({"key": pj["key"], "blocks": pj["blocks"], "comps": pj["comps"], "comments": pj["comments"]})
+        L.poison(g.bf3file)                                   # (see bf3lib.poison: returned objects are the caller's)
+        try:
+            g.auth_blocks.clear()
+            g.session_key = b"\xEE" * 16
+        except Exception:                                     # noqa: BLE001
+            pass
     except BaseException as e:                                  # noqa: BLE001
         if isinstance(e, (KeyboardInterrupt, SystemExit)):
             raise
